@@ -413,6 +413,12 @@ FIXED += [
         _c("S", "", abstract=True),
         _c("Vec", "S", [("xs", ("ann", ("list", ("ann", ("base", "int"), ("IntRange", -1, 1))), ("ListSize", 1, 2)))]),
         _c("Two", "S", [("a", ("sym", "S"))])]},
+    # a supplied but unreachable abstract type whose only production is recursive (no base case): unproductive
+    {"id": "deadrec", "start": "Expr", "classes": [
+        _c("Node", "", abstract=True), _c("Expr", "Node", abstract=True, style="decorator"),
+        _c("Stmt", "Node", abstract=True, style="decorator"),
+        _c("Lit", "Expr", [("v", I01)]), _c("Add", "Expr", [("l", E), ("r", E)]),
+        _c("Block", "Stmt", [("body", ("sym", "Stmt"))])]},
     # weighted productions whose weights do not add up to a power of two
     {"id": "weighted", "start": "Expr", "classes": [
         _c("Expr", "", abstract=True), _c("Lit", "Expr", [("v", I01)], weight=3),
